@@ -23,7 +23,7 @@ struct C17 : Prop {
 	// A, B, A, B with a quiescent read after each (RA, RB and a check that they are reproducible); then A and B alternate densely on
 	// the time grid while reader tasks call the entity's getter and bidib_get_state. A query result is a copy of ONE state of the
 	// entity: every concurrent result must equal RA or RB (a mix of both, or a copy of memory the receiver released meanwhile, is not).
-	struct Hot { std::string fn, key, idv; J a, b; bool ok = false; };
+	struct Hot { std::string fn, key, idv; J a, b; bool ok = false, no_arg = false; };
 	static J ev(const std::vector<uint8_t> &addr, int type, J data) { J e = J::obj(); e.set("node", pc::jaddr(addr)); e.set("type", type); e.set("data", data); return e; }
 	static Hot pick_hot(Rng &r, const cfg::World &w) {
 		std::vector<Hot> c;
@@ -50,6 +50,9 @@ struct C17 : Prop {
 				if (r.coin()) { h.a = ev(b.addr, MSG_BOOST_DIAGNOSTIC, pc::jarr({0, 10, 1, 20, 2, 30})); h.b = ev(b.addr, MSG_BOOST_DIAGNOSTIC, pc::jarr({0, 200, 1, 210, 2, 220})); } c.push_back(h); }
 			if (b.track_output()) { Hot h; h.fn = "track_output_state"; h.key = "track_outputs"; h.idv = b.id; h.a = ev(b.addr, MSG_CS_STATE, pc::jarr({3})); h.b = ev(b.addr, MSG_CS_STATE, pc::jarr({0})); c.push_back(h); }
 		}
+		// the list of connected boards while one leaf board leaves and logs in again and again
+		for (auto &b : w.boards) if (b.present && !b.addr.empty() && !b.is_iface()) { Hot h; h.fn = "boards_connected"; h.key = ""; h.idv = b.id; h.no_arg = true;
+			h.a = J::obj(); h.a.set("topo", "lost"); h.a.set("node", pc::jaddr(b.addr)); h.b = J::obj(); h.b.set("topo", "new"); h.b.set("node", pc::jaddr(b.addr)); c.push_back(h); c.push_back(h); }
 		if (to) for (auto &t : w.trains) { Hot h; h.fn = "train_state"; h.key = "trains"; h.idv = t.id;
 			h.a = ev(to->addr, MSG_CS_DRIVE_MANUAL, pc::jarr({t.addrl, t.addrh, 3, 0x1F, 0x85, 0x1F, 0xFF, 0xFF, 0xFF})); h.b = ev(to->addr, MSG_CS_DRIVE_MANUAL, pc::jarr({t.addrl, t.addrh, 3, 0x1F, 0x02, 0, 0, 0, 0})); c.push_back(h); }
 		if (c.empty()) return Hot();
@@ -66,7 +69,7 @@ struct C17 : Prop {
 		J hot = J::obj(); hot.set("fn", h.fn); hot.set("key", h.key); hot.set("id", h.idv); plan.set("hot", hot);
 		J se = cfg::normal_session(0, 0);
 		J phs = J::arr();
-		auto getr = [&](const char *tag) { J g = J::obj(); g.set("op", "getr"); g.set("fn", h.fn); J s = J::arr(); s.push(h.idv); g.set("s", s); g.set("i", J::arr()); g.set("tag", tag); return g; };
+		auto getr = [&](const char *tag) { J g = J::obj(); g.set("op", "getr"); g.set("fn", h.fn); J s = J::arr(); if (!h.no_arg) s.push(h.idv); g.set("s", s); g.set("i", J::arr()); g.set("tag", tag); return g; };
 		auto quiesce = [&](J &ph) { J post = J::arr(); post.push("quiesce"); ph.set("post", post); };
 		for (int k = 0; k < 5; k++) {      // calibration: initial, A, B, A, B
 			J ph = J::obj();
@@ -157,6 +160,7 @@ struct C17 : Prop {
 		const J &hot = e.plan["hot"];
 		hot_results++;
 		std::string got, ra, rb;
+		if (o.op->gets("fn") == "state" && hot.gets("key").empty()) { hot_results--; return; }      // (the snapshot has no part for this kind)
 		if (o.op->gets("fn") == "state") {
 			const J &part = o.result[hot.gets("key")];
 			if (!part.has(hot.gets("id"))) { e.violate("TORN_RESULT", "bidib_get_state", "bidib_get_state taken while " + hot.gets("id") + " was being updated does not contain it"); return; }
